@@ -20,6 +20,7 @@ def setup(symbolic):
         from vxlib.symx import shims, loader
         loader.install()
         shims.install()
+    sweep.snapshot_state()
 
 
 def bounds(tier):
@@ -59,13 +60,16 @@ def run_history(ctx, st):
     name = st['name']
     a = [ctx.int('a%d' % i) for i in range(4)]
     r = [ctx.int('r%d' % i) for i in range(4)]
+    sweep.reset_state()                      # what a fresh interpreter starts from
     o1 = sweep.run_window(ctx, name, a, r)
     if o1.kind != 'text':
         ctx.reach('outcome:' + o1.kind); ctx.reach(); return
+    sweep.reset_state()
     for i, pr in enumerate(PROBES):
         pa = [ctx.int('p%d_%d' % (i, j)) for j in range(4)]
         sweep.run_window(ctx, pr, [pa[0], pa[1], pa[2], pa[3] & 1], [0, 0, 0, 0])
     o2 = sweep.run_window(ctx, name, a, r)
+    sweep.reset_state()
     L = 'C09/%s' % name
     if o2.kind != 'text':
         ctx.check(L + '/history-independent', False, 'second decoding: ' + o2.kind)
